@@ -13,6 +13,7 @@ else
   sed "s#=> /repo#=> $REPO#" go.mod > "$VERIF_ROOT/.cache/go.alt.mod"; cp "$REPO/go.sum" "$VERIF_ROOT/.cache/go.alt.sum"
   go build -modfile="$VERIF_ROOT/.cache/go.alt.mod" -o "$VERIF_ROOT/bin/vcheck" ./cmd/vcheck
 fi
-rm -rf "$VERIF_ROOT/bin/std"
+# refresh the std copy in place (a concurrently running check must never see it missing)
 mkdir -p "$VERIF_ROOT/bin/std"
-cp "$REPO"/std/*.tsh "$VERIF_ROOT/bin/std/"
+for f in "$REPO"/std/*.tsh; do cmp -s "$f" "$VERIF_ROOT/bin/std/$(basename "$f")" || cp -f "$f" "$VERIF_ROOT/bin/std/"; done
+for f in "$VERIF_ROOT"/bin/std/*.tsh; do [ -e "$REPO/std/$(basename "$f")" ] || rm -f "$f"; done
